@@ -29,7 +29,7 @@ class C17(HistoryProperty):
     ASSUMPTIONS = ["backend faults are limited to the kinds the statement lists", "stub bodies are deterministic"]
     REAL = HistoryProperty.REAL
     STUBS = HistoryProperty.STUBS + ["FaultyCache(Cache): fingerprint-keyed dict with a scripted fault per global call index", "FaultyCacheDefaultExists(Cache): same, relying on the ABC default exists()", "FaultyMemoryCache(MemoryCache): inherited get/set, own (possibly stale) index for exists()", "FaultyFront(Cache): delegates to an inner FaultyCache, whose miss signal names the inner object"]
-    QUICK = {"runs": 350, "wall": 45}
+    QUICK = {"runs": 1000, "wall": 45}
     THOROUGH = {"runs": 60000, "wall": 540}
     REQUIRED_CACHE = None
 
